@@ -152,10 +152,9 @@ func driveOnce(plan []M, out *Out, _ []string) {
 			if running {
 				return
 			}
-			select {
-			case <-inF:
+			if _, ok := patientRecv(inF, 3*time.Second); ok {
 				running = true
-			case <-time.After(3 * time.Second):
+			} else {
 				log(M{"ev": "info", "what": "no function started within 3s"})
 			}
 		}
